@@ -188,3 +188,16 @@ var (
 	VerifRoutingErrNotMaster = errNotMaster
 	VerifRoutingErrNotSlave  = errNotSlave
 )
+
+// VerifRoutingSentinelConnErr is Error() of the stored master (or replica) connection; nil if none is stored.
+func VerifRoutingSentinelConnErr(c Client, master bool) error {
+	s := c.(*sentinelClient)
+	v := s.rConn.Load()
+	if master {
+		v = s.mConn.Load()
+	}
+	if v == nil {
+		return nil
+	}
+	return v.(conn).Error()
+}
